@@ -131,6 +131,12 @@ def oracles(events, upto):
                     last = ev["created"][0]["last"]
                     if lo_cover != set(range(0, last + 1)) or sum(m["hi"] - m["lo"] + 1 for m in ev["created"]) != last + 1:
                         fails.append(("C07", "announced changesets do not tile 0..=last_seq at event %d" % ev["i"]))
+                    if last != len(ev["op"]["keys"]) - 1:
+                        fails.append(("C07", "last_seq %d of the announced version differs from the last sequence number the transaction used (%d) at event %d" % (last, len(ev["op"]["keys"]) - 1, ev["i"])))
+                    own = [c for c in (post or {}).get("cells", []) if c["site"] == n and c["dbv"] == ev["version"]]
+                    ann = {(c["key"], c["seq"]) for m in ev["created"] for c in m["chs"]}
+                    if {(c["key"], c["seq"]) for c in own} != ann:
+                        fails.append(("C07", "the announced changes %s are not exactly the transaction's changes %s (event %d)" % (sorted(ann), sorted((c["key"], c["seq"]) for c in own), ev["i"])))
                     if {c["key"] for m in ev["created"] for c in m["chs"]} != set(ev["op"]["keys"]):
                         fails.append(("C07", "announced changes differ from the transaction's writes at event %d" % ev["i"]))
                 else:
